@@ -130,20 +130,29 @@ impl BytesMut {
     /// `split()`: takes all readable bytes, leaves self empty
     #[verifier::external_body]
     pub fn split(&mut self) -> (r: BytesMut)
-        ensures r@ == old(self)@, final(self)@ == Seq::<u8>::empty(),
+        ensures r@ == old(self)@, final(self)@ == Seq::<u8>::empty(), final(self).cap() + old(self)@.len() == old(self).cap(),
     { unimplemented!() }
-    /// `split_off(at)`: panics if at > capacity; with an empty buffer of capacity >= at both halves are empty.
+    /// `split_off(at)`: panics if at > capacity.  self keeps [0, min(at,len)), the result gets [at, len) (empty if at >= len).
     #[verifier::external_body]
-    pub fn split_off_empty(&mut self, at: usize) -> (r: BytesMut)
-        requires old(self)@.len() == 0,
-        ensures r@ == Seq::<u8>::empty(), final(self)@ == Seq::<u8>::empty(),
+    pub fn split_off(&mut self, at: usize) -> (r: BytesMut)
+        requires at <= old(self).cap(),
+        ensures
+            at <= old(self)@.len() ==> final(self)@ == old(self)@.subrange(0, at as int) && r@ == old(self)@.subrange(at as int, old(self)@.len() as int),
+            at > old(self)@.len() ==> final(self)@ == old(self)@ && r@ == Seq::<u8>::empty(),
+    { unimplemented!() }
+    /// unsafe `set_len(n)`: caller must guarantee n <= capacity; exposes arbitrary bytes beyond the old length
+    #[verifier::external_body]
+    pub unsafe fn set_len(&mut self, n: usize)
+        requires n <= old(self).cap(),
+        ensures final(self)@.len() == n, final(self).cap() == old(self).cap(),
+            forall|i: int| 0 <= i < n && i < old(self)@.len() ==> final(self)@[i] == old(self)@[i],
     { unimplemented!() }
     #[verifier::external_body]
     pub fn unsplit(&mut self, other: BytesMut)
         ensures final(self)@ == old(self)@ + other@,
     { unimplemented!() }
     #[verifier::external_body]
-    pub fn reserve(&mut self, n: usize) ensures final(self)@ == old(self)@ { unimplemented!() }
+    pub fn reserve(&mut self, n: usize) ensures final(self)@ == old(self)@, final(self).cap() >= old(self)@.len() + n { unimplemented!() }
     #[verifier::external_body]
     pub fn truncate(&mut self, n: usize)
         ensures final(self)@ == (if n <= old(self)@.len() { old(self)@.subrange(0, n as int) } else { old(self)@ }),
@@ -169,4 +178,25 @@ pub fn buf_copy_to_tail<T: Buf>(src: &mut T, dst: &mut BytesMut, from: usize)
              old(dst)@.len() - from <= old(src).bview().len(),
     ensures final(dst)@ == old(dst)@.subrange(0, from as int) + old(src).bview().subrange(0, old(dst)@.len() - from),
             final(src).bview() == old(src).bview().subrange(old(dst)@.len() - from, old(src).bview().len() as int),
+{ unimplemented!() }
+
+impl<'a> Buf for &'a [u8] {
+    open spec fn bview(&self) -> Seq<u8> { (*self)@ }
+    #[verifier::external_body]
+    fn remaining(&self) -> (r: usize) { unimplemented!() }
+    #[verifier::external_body]
+    fn has_remaining(&self) -> (r: bool) { unimplemented!() }
+    #[verifier::external_body]
+    fn get_u8(&mut self) -> (r: u8) { unimplemented!() }
+    #[verifier::external_body]
+    fn get_u16(&mut self) -> (r: u16) { unimplemented!() }
+    #[verifier::external_body]
+    fn get_u32(&mut self) -> (r: u32) { unimplemented!() }
+}
+
+/// `&b[from..to]` on Bytes: panics unless from <= to <= len
+#[verifier::external_body]
+pub fn bytes_slice(b: &Bytes, from: usize, to: usize) -> (r: &[u8])
+    requires from <= to <= b@.len(),
+    ensures r@ == b@.subrange(from as int, to as int),
 { unimplemented!() }
